@@ -482,12 +482,41 @@ def run(ctx):
     ctx.notes.append("an error returned by a pre / post client filter: the call went on to doInvoke and its caller got the outcome of the "
                      "call in %s calls, the call was ended with the filter's error in %s calls (statement silent on which: both accepted)"
                      % (went_on, stopped))
+    # ---- one-way calls: the same path up to the send, no wait; judged at quiescence like every other call (Oracle_OneWay)
+    from lib import oracle
+    owf = os.path.join(ctx.sub("oneway"), "oneway.ndjson")
+    sh([exe, "oneway", "-out", owf, "-n", str(ctx.pick(12, 48))], timeout=600)
+    owres = oracle.judge(ctx, mux.SPEC, "Oracle_OneWay", "OracleOneWay.cfg", [owf], par=1, timeout=300, name="oneway-oracle")
+    owrecs = [json.loads(l) for l in open(owf)]
+    if owres["total"] != 9:
+        raise Inconclusive("one-way stage: %d records instead of 9" % owres["total"])
+    names = ["queueLen", "manager-invokeNum", "pending-table"]
+    for _, _, rec in owres["bad"]:
+        if rec["calls"] == 0 or rec["oneway"] == 0:
+            raise Inconclusive("one-way stage: no calls made against the %s peer" % rec["peer"])
+        if rec["maxms"] > rec["boundms"]:
+            ctx.violate("C09:deadline-overrun:one-way-call:%s" % rec["peer"],
+                        "a call of the %s run against the peer that %s returned after %d ms (bound %d ms)"
+                        % (rec["mode"], rec["peer"], rec["maxms"], rec["boundms"]), {"kind": "oneway", "record": rec})
+        if rec["after"] != rec["before"]:
+            which = "+".join(n for n, a, b in zip(names, rec["after"], rec["before"]) if a != b)
+            ctx.violate("C09:residue:%s:one-way-call:%s" % (which, rec["peer"]),
+                        "after %d calls (%d one-way, %d ended with an error; %s) against the peer that %s, with every call returned: "
+                        "queueLen / manager invokeNum / pending-reply entries = %s, before the run %s"
+                        % (rec["calls"], rec["oneway"], rec["errs"], rec["mode"], rec["peer"], rec["after"], rec["before"]),
+                        {"kind": "oneway", "record": rec})
+    ow_st = oracle.selftest(ctx, mux.SPEC, "Oracle_OneWay", "OracleOneWay.cfg", owrecs,
+                            lambda i, rec: dict(rec, after=[rec["after"][0] + 1] + rec["after"][1:]) if i % 4 == 0 else None,
+                            name="oneway-selftest")
     tw = twf.result()
     twex.shutdown()
     ctx.assumptions.append("timing wheel: After and the tick are recorded under tw.lock, the close after the unlock is the only "
                            "unlogged step; a rejected run counts only when a second recording is rejected at the same kind of event")
     ctx.coverage = {
         "timing_wheel": tw,
+        "one_way_calls": {"runs": owrecs, "selftest": ow_st,
+                          "rule": "12 / 48 calls per run, one-way only (serial, concurrent) or mixed with two-way calls, against peers that "
+                                  "read and never answer, close at once, refuse; every call in time, counters back at quiescence"},
         "states": sum(v.get("distinct", 0) for v in mc.values()) + st["states"] + stb["states"],
         "transitions": sum(v.get("generated", 0) for v in mc.values()) + st["transitions"] + stb["transitions"],
         "traces_validated_against_impl": len(traces),
